@@ -24,10 +24,10 @@ property in three ways, each replayed from corpus/C17 by the harness).  Exact ra
 * `mem_contrib`, `emsd_weighted`, `emsd_none_iff` — `emsd = Σ N·v / Σ N` over exactly the particles
   whose own `msd` has a non-NaN value at the lag; NaN iff there is none.
 
--- FULL (not proved): `msdDef … = meanOpt (pairs.map fun (a, b) => Σ_c ((b_c − a_c)·mpp)²)`, i.e. the
--- sum over coordinates of the per-coordinate means equals the mean over pairs of the summed squared
--- displacement (same pair set for every coordinate).  The harness oracle computes `msd` in that
--- second form on every case.
+`Props/C17Def.lean` continues: `msdDef_eq_pairMean` (`msdDef` = the mean over the pairs of observations
+`lag` frames apart of the squared displacement summed over the coordinates — one pair set for every
+coordinate — both NaN together), `msd_eq_rows` (all columns incl. `N`, from the table alone) and
+`emsd_eq_def` (the ensemble value as the weighted mean of the all-pairs definitions).
 -/
 namespace TrackpyV.MSD
 
